@@ -1,0 +1,1021 @@
+//! Simulation seams for deterministic simulation testing.
+//!
+//! This module only exists when the crate is compiled with
+//! `--cfg smlxl_storage_layout_extractor_verif`. It puts the sources of
+//! run-to-run nondeterminism in the library (hash iteration order and random
+//! value identifiers) behind a per-thread simulation context that an external
+//! harness controls, and provides a few observation points (fold log, loop
+//! ticks) that the harness reads back after a run.
+//!
+//! With the context never [`reset`], everything behaves like the shipped code
+//! with a fixed hash seed: no permutation, fixed hasher keys, sequential
+//! identifiers.
+
+#![allow(clippy::all, clippy::pedantic)]
+#![allow(missing_docs)]
+
+use std::{
+    cell::RefCell,
+    collections::{hash_map::DefaultHasher, VecDeque},
+    hash::{BuildHasher, Hasher},
+    panic::Location,
+};
+
+use crate::tc::expression::{TypeExpression, WordUse, TE};
+
+// ---------------------------------------------------------------------------
+// Parameters and records
+// ---------------------------------------------------------------------------
+
+/// One scheduling decision for one iteration event of length `n`.
+#[derive(Clone, Debug, Eq, PartialEq, Hash)]
+pub enum Decision {
+    Identity,
+    Reverse,
+    Rotate(u32),
+    Shuffle(u64),
+    /// Only meaningful at the fold site: order by kind rank, ascending.
+    KindAsc,
+    /// Only meaningful at the fold site: order by kind rank, descending.
+    KindDesc,
+    /// An explicit permutation: output position `i` takes input element
+    /// `perm[i]`.
+    Perm(Vec<u32>),
+}
+
+/// Bits of the decision menu for the seeded policy.
+pub const MENU_REVERSE: u32 = 1;
+pub const MENU_ROTATE: u32 = 2;
+pub const MENU_SHUFFLE: u32 = 4;
+pub const MENU_KIND_ASC: u32 = 8;
+pub const MENU_KIND_DESC: u32 = 16;
+pub const MENU_ALL: u32 = 31;
+
+#[derive(Clone, Debug)]
+pub enum Policy {
+    /// Never permute.
+    Identity,
+    /// Draw a decision for every event from a stream derived from `seed`; only
+    /// sites whose hash under `site_salt` falls below `site_permille` take
+    /// part (buggify-style site subsets); `menu` is a bit set of `MENU_*`.
+    Seeded {
+        seed:          u64,
+        site_salt:     u64,
+        site_permille: u32,
+        menu:          u32,
+    },
+    /// Explicit decision per event index; unlisted events are identity.
+    Scripted(Vec<ScriptEntry>),
+}
+
+#[derive(Clone, Debug)]
+pub struct ScriptEntry {
+    pub event:    u32,
+    pub site:     u64,
+    pub n:        u32,
+    pub decision: Decision,
+}
+
+#[derive(Clone, Debug)]
+pub struct Params {
+    pub key0:         u64,
+    pub key1:         u64,
+    pub policy:       Policy,
+    /// Keep the complete event trace (otherwise only a digest and counters).
+    pub record_trace: bool,
+    /// Keep the complete fold log (otherwise only a digest and counters).
+    pub record_folds: bool,
+}
+
+impl Default for Params {
+    fn default() -> Self {
+        Params {
+            key0:         0,
+            key1:         0,
+            policy:       Policy::Identity,
+            record_trace: false,
+            record_folds: false,
+        }
+    }
+}
+
+#[derive(Clone, Debug)]
+pub struct Event {
+    pub event:    u32,
+    pub site:     u64,
+    pub site_str: String,
+    pub n:        u32,
+    pub decision: Decision,
+}
+
+#[derive(Clone, Debug)]
+pub struct Fold {
+    pub round:  u32,
+    pub tv:     usize,
+    /// Evidence kinds in the order they are about to be folded.
+    pub kinds:  Vec<String>,
+    /// Kind of the result (filled in by `note_fold_result`).
+    pub result: String,
+}
+
+/// The loops the library polls the watchdog from.
+#[derive(Copy, Clone, Debug, Eq, PartialEq, Hash, Ord, PartialOrd)]
+pub enum Site {
+    VmMain = 0,
+    CallDataCopy,
+    CodeCopy,
+    ExtCodeCopy,
+    ReturnDataCopy,
+    CallReturnData,
+    Lift,
+    AssignVars,
+    Infer,
+    Unify,
+    Layout,
+}
+
+pub const SITE_COUNT: usize = 11;
+
+pub const SITE_NAMES: [&str; SITE_COUNT] = [
+    "vm_main",
+    "calldatacopy",
+    "codecopy",
+    "extcodecopy",
+    "returndatacopy",
+    "call_return_data",
+    "lift",
+    "assign_vars",
+    "infer",
+    "unify",
+    "layout",
+];
+
+/// One dynamic instance of a polled loop.
+#[derive(Clone, Debug, Default)]
+pub struct LoopInstance {
+    pub site:  usize,
+    /// Iterations started.
+    pub ticks: u64,
+    /// Iterations that were skipped without doing work (and without advancing
+    /// the loop's poll counter).
+    pub skips: u64,
+    /// Polls attributed to this instance by [`note_poll`].
+    pub polls: u64,
+}
+
+#[derive(Clone, Debug, Default)]
+pub struct Record {
+    pub events:          u64,
+    pub permuted_events: u64,
+    pub trace_digest:    u64,
+    pub trace:           Vec<Event>,
+    pub script_mismatch: Option<String>,
+    pub folds:           u64,
+    pub folds_multi:     u64,
+    pub fold_digest:     u64,
+    pub fold_log:        Vec<Fold>,
+    pub fold_max_len:    u32,
+    pub unify_rounds:    u32,
+    pub ids_issued:      u64,
+    pub site_ticks:      [u64; SITE_COUNT],
+    pub site_polls:      [u64; SITE_COUNT],
+    pub site_instances:  [u64; SITE_COUNT],
+    pub loops:           Vec<LoopInstance>,
+    pub polls_unattributed: u64,
+}
+
+struct SimCtx {
+    params:  Params,
+    record:  Record,
+    next_id: u128,
+    round:   u32,
+    /// Per site, the index into `record.loops` of the instance entered most
+    /// recently.
+    current: [Option<usize>; SITE_COUNT],
+    /// Index into `record.loops` of the loop that ticked most recently.
+    last_tick: Option<usize>,
+}
+
+impl SimCtx {
+    fn new(params: Params) -> Self {
+        SimCtx {
+            params,
+            record: Record::default(),
+            next_id: 1,
+            round: 0,
+            current: [None; SITE_COUNT],
+            last_tick: None,
+        }
+    }
+}
+
+thread_local! {
+    static CTX: RefCell<SimCtx> = RefCell::new(SimCtx::new(Params::default()));
+}
+
+/// Starts a new simulated run on this thread.
+pub fn reset(params: Params) {
+    CTX.with(|c| *c.borrow_mut() = SimCtx::new(params));
+}
+
+/// Ends the run and hands back what was recorded.
+pub fn take_record() -> Record {
+    CTX.with(|c| {
+        let mut c = c.borrow_mut();
+        std::mem::take(&mut c.record)
+    })
+}
+
+// ---------------------------------------------------------------------------
+// Deterministic primitives
+// ---------------------------------------------------------------------------
+
+fn splitmix(x: &mut u64) -> u64 {
+    *x = x.wrapping_add(0x9e37_79b9_7f4a_7c15);
+    let mut z = *x;
+    z = (z ^ (z >> 30)).wrapping_mul(0xbf58_476d_1ce4_e5b9);
+    z = (z ^ (z >> 27)).wrapping_mul(0x94d0_49bb_1331_11eb);
+    z ^ (z >> 31)
+}
+
+fn mix2(a: u64, b: u64) -> u64 {
+    let mut s = a ^ b.wrapping_mul(0xd6e8_feb8_6659_fd93);
+    splitmix(&mut s)
+}
+
+fn str_hash(s: &str) -> u64 {
+    // FNV-1a, fixed.
+    let mut h: u64 = 0xcbf2_9ce4_8422_2325;
+    for b in s.as_bytes() {
+        h ^= u64::from(*b);
+        h = h.wrapping_mul(0x0000_0100_0000_01b3);
+    }
+    h
+}
+
+fn site_id(loc: &Location<'_>) -> (u64, String) {
+    let s = format!("{}:{}:{}", loc.file(), loc.line(), loc.column());
+    (str_hash(&s), s)
+}
+
+fn apply_perm<T>(v: &mut Vec<T>, perm: &[u32]) -> bool {
+    let n = v.len();
+    if perm.len() != n {
+        return false;
+    }
+    let mut seen = vec![false; n];
+    for p in perm {
+        let p = *p as usize;
+        if p >= n || seen[p] {
+            return false;
+        }
+        seen[p] = true;
+    }
+    let mut slots: Vec<Option<T>> = v.drain(..).map(Some).collect();
+    for p in perm {
+        v.push(slots[*p as usize].take().expect("checked permutation"));
+    }
+    true
+}
+
+fn apply_generic<T>(v: &mut Vec<T>, d: &Decision) -> bool {
+    match d {
+        Decision::Identity | Decision::KindAsc | Decision::KindDesc => true,
+        Decision::Reverse => {
+            v.reverse();
+            true
+        }
+        Decision::Rotate(r) => {
+            if !v.is_empty() {
+                let r = (*r as usize) % v.len();
+                v.rotate_left(r);
+            }
+            true
+        }
+        Decision::Shuffle(seed) => {
+            let mut s = *seed;
+            let n = v.len();
+            for i in (1..n).rev() {
+                let j = (splitmix(&mut s) % (i as u64 + 1)) as usize;
+                v.swap(i, j);
+            }
+            true
+        }
+        Decision::Perm(p) => apply_perm(v, p),
+    }
+}
+
+fn decide(ctx: &mut SimCtx, site: u64, n: u32, fold_site: bool) -> Decision {
+    let event = ctx.record.events as u32;
+    match &ctx.params.policy {
+        Policy::Identity => Decision::Identity,
+        Policy::Seeded {
+            seed,
+            site_salt,
+            site_permille,
+            menu,
+        } => {
+            if mix2(site, *site_salt) % 1000 >= u64::from(*site_permille) {
+                return Decision::Identity;
+            }
+            let mut s = mix2(*seed, u64::from(event));
+            let mut options: Vec<u32> = vec![0];
+            for bit in [MENU_REVERSE, MENU_ROTATE, MENU_SHUFFLE] {
+                if menu & bit != 0 {
+                    options.push(bit);
+                }
+            }
+            if fold_site {
+                for bit in [MENU_KIND_ASC, MENU_KIND_DESC] {
+                    if menu & bit != 0 {
+                        options.push(bit);
+                    }
+                }
+            }
+            let pick = options[(splitmix(&mut s) % options.len() as u64) as usize];
+            match pick {
+                MENU_REVERSE => Decision::Reverse,
+                MENU_ROTATE => Decision::Rotate((splitmix(&mut s) % u64::from(n.max(1))) as u32),
+                MENU_SHUFFLE => Decision::Shuffle(splitmix(&mut s)),
+                MENU_KIND_ASC => Decision::KindAsc,
+                MENU_KIND_DESC => Decision::KindDesc,
+                _ => Decision::Identity,
+            }
+        }
+        Policy::Scripted(entries) => {
+            // Entries are sorted by event index; a binary search keeps long
+            // scripts cheap.
+            match entries.binary_search_by_key(&event, |e| e.event) {
+                Ok(ix) => {
+                    let e = &entries[ix];
+                    if e.site != site || e.n != n {
+                        if ctx.record.script_mismatch.is_none() {
+                            ctx.record.script_mismatch = Some(format!(
+                                "event {event}: script has site={:x} n={}, run has site={site:x} \
+                                 n={n}",
+                                e.site, e.n
+                            ));
+                        }
+                        Decision::Identity
+                    } else {
+                        e.decision.clone()
+                    }
+                }
+                Err(_) => Decision::Identity,
+            }
+        }
+    }
+}
+
+fn record_event(ctx: &mut SimCtx, site: u64, site_str: impl FnOnce() -> String, n: u32, d: &Decision) {
+    let event = ctx.record.events as u32;
+    ctx.record.events += 1;
+    if *d != Decision::Identity {
+        ctx.record.permuted_events += 1;
+    }
+    let mut h = DefaultHasher::new();
+    h.write_u64(ctx.record.trace_digest);
+    h.write_u64(site);
+    h.write_u32(n);
+    std::hash::Hash::hash(d, &mut h);
+    ctx.record.trace_digest = h.finish();
+    if ctx.params.record_trace {
+        ctx.record.trace.push(Event {
+            event,
+            site,
+            site_str: site_str(),
+            n,
+            decision: d.clone(),
+        });
+    }
+}
+
+/// The scheduler entry point used by the collection wrappers: one iteration
+/// event over `v`, observed at `loc`.
+pub fn schedule<T>(loc: &'static Location<'static>, v: &mut Vec<T>) {
+    let n = v.len();
+    if n < 2 {
+        return;
+    }
+    CTX.with(|c| {
+        // A re-entrant borrow can only happen if a `Hash`/`Eq` impl iterates a
+        // wrapped collection while we hold the context; nothing in the crate
+        // does, and we never call user code while borrowed.
+        let mut ctx = c.borrow_mut();
+        let (site, site_str) = site_id(loc);
+        let d = decide(&mut ctx, site, n as u32, false);
+        if !apply_generic(v, &d) && ctx.record.script_mismatch.is_none() {
+            ctx.record.script_mismatch = Some(format!("bad permutation at {site_str}"));
+        }
+        record_event(&mut ctx, site, || site_str, n as u32, &d);
+    });
+}
+
+// ---------------------------------------------------------------------------
+// Identities (N2)
+// ---------------------------------------------------------------------------
+
+/// The next value identifier of this run.
+pub fn next_id() -> u128 {
+    CTX.with(|c| {
+        let mut ctx = c.borrow_mut();
+        let id = ctx.next_id;
+        ctx.next_id += 1;
+        ctx.record.ids_issued += 1;
+        // Spread the bits so that ids do not hash like small integers.
+        let lo = mix2(id as u64, ctx.params.key0);
+        let hi = mix2(id as u64, ctx.params.key1 ^ 0x5151_5151);
+        (u128::from(hi) << 64) | u128::from(lo)
+    })
+}
+
+// ---------------------------------------------------------------------------
+// Fold log and fold scheduling (tc/unification.rs)
+// ---------------------------------------------------------------------------
+
+/// A short, type-variable-free description of a piece of evidence.
+pub fn kind_of(e: &TypeExpression) -> String {
+    match e {
+        TE::Any => "Any".into(),
+        TE::Equal { .. } => "Equal".into(),
+        TE::Word { width, usage } => {
+            let u = match usage {
+                WordUse::Bytes => "Bytes",
+                WordUse::Numeric => "Numeric",
+                WordUse::UnsignedNumeric => "Unsigned",
+                WordUse::SignedNumeric => "Signed",
+                WordUse::Bool => "Bool",
+                WordUse::Address => "Address",
+                WordUse::Selector => "Selector",
+                WordUse::Function => "Function",
+            };
+            match width {
+                Some(w) => format!("Word({u},{w})"),
+                None => format!("Word({u},?)"),
+            }
+        }
+        TE::Bytes => "DynBytes".into(),
+        TE::FixedArray { length, .. } => format!("FixedArray[{length}]"),
+        TE::Mapping { .. } => "Mapping".into(),
+        TE::DynamicArray { .. } => "DynArray".into(),
+        TE::Packed { types, is_struct } => {
+            let spans: Vec<String> = types.iter().map(|s| format!("{}+{}", s.offset, s.size)).collect();
+            format!("{}[{}]", if *is_struct { "Struct" } else { "Packed" }, spans.join(","))
+        }
+        TE::Conflict { .. } => "Conflict".into(),
+    }
+}
+
+fn kind_rank(e: &TypeExpression) -> u32 {
+    match e {
+        TE::Conflict { .. } => 0,
+        TE::Equal { .. } => 1,
+        TE::Word { .. } => 2,
+        TE::Bytes => 3,
+        TE::Packed { .. } => 4,
+        TE::DynamicArray { .. } => 5,
+        TE::FixedArray { .. } => 6,
+        TE::Mapping { .. } => 7,
+        TE::Any => 8,
+    }
+}
+
+/// Marks the start of one round of the unifier's fixpoint loop.
+pub fn note_round() {
+    CTX.with(|c| {
+        let mut ctx = c.borrow_mut();
+        ctx.round += 1;
+        ctx.record.unify_rounds = ctx.round;
+    });
+}
+
+/// Called with the evidence of one class just before it is folded: lets the
+/// scheduler reorder it and logs the order that is used.
+pub fn fold_hook(tv: usize, exprs: &mut VecDeque<TypeExpression>) {
+    let n = exprs.len();
+    CTX.with(|c| {
+        let mut ctx = c.borrow_mut();
+        if n >= 2 {
+            let site = str_hash("fold");
+            let d = decide(&mut ctx, site, n as u32, true);
+            let mut v: Vec<TypeExpression> = exprs.drain(..).collect();
+            match &d {
+                Decision::KindAsc => v.sort_by_key(|e| (kind_rank(e), kind_of(e))),
+                Decision::KindDesc => {
+                    v.sort_by_key(|e| (kind_rank(e), kind_of(e)));
+                    v.reverse();
+                }
+                other => {
+                    if !apply_generic(&mut v, other) && ctx.record.script_mismatch.is_none() {
+                        ctx.record.script_mismatch = Some("bad permutation at fold".into());
+                    }
+                }
+            }
+            exprs.extend(v);
+            record_event(&mut ctx, site, || "fold".into(), n as u32, &d);
+        }
+        ctx.record.folds += 1;
+        if n >= 2 {
+            ctx.record.folds_multi += 1;
+        }
+        if n as u32 > ctx.record.fold_max_len {
+            ctx.record.fold_max_len = n as u32;
+        }
+        if n >= 2 || ctx.params.record_folds {
+            let kinds: Vec<String> = exprs.iter().map(kind_of).collect();
+            let mut h = DefaultHasher::new();
+            h.write_u64(ctx.record.fold_digest);
+            for k in &kinds {
+                h.write(k.as_bytes());
+                h.write_u8(0xff);
+            }
+            ctx.record.fold_digest = h.finish();
+            if ctx.params.record_folds {
+                let round = ctx.round;
+                ctx.record.fold_log.push(Fold {
+                    round,
+                    tv,
+                    kinds,
+                    result: String::new(),
+                });
+            }
+        }
+    });
+}
+
+/// Records the outcome of the fold most recently announced by [`fold_hook`].
+pub fn note_fold_result(result: &TypeExpression) {
+    CTX.with(|c| {
+        let mut ctx = c.borrow_mut();
+        if ctx.params.record_folds {
+            if let Some(last) = ctx.record.fold_log.last_mut() {
+                last.result = kind_of(result);
+            }
+        }
+    });
+}
+
+// ---------------------------------------------------------------------------
+// Work ticks (C13)
+// ---------------------------------------------------------------------------
+
+/// A polled loop is about to start.
+pub fn loop_enter(site: Site) {
+    CTX.with(|c| {
+        let mut ctx = c.borrow_mut();
+        ctx.record.site_instances[site as usize] += 1;
+        let ix = ctx.record.loops.len();
+        ctx.record.loops.push(LoopInstance {
+            site: site as usize,
+            ..LoopInstance::default()
+        });
+        ctx.current[site as usize] = Some(ix);
+    });
+}
+
+/// One iteration of the most recently entered loop of kind `site` starts.
+pub fn tick(site: Site) {
+    CTX.with(|c| {
+        let mut ctx = c.borrow_mut();
+        ctx.record.site_ticks[site as usize] += 1;
+        let found = ctx.current[site as usize];
+        if let Some(ix) = found {
+            ctx.record.loops[ix].ticks += 1;
+        }
+        ctx.last_tick = found;
+    });
+}
+
+/// The current iteration of the loop of kind `site` is skipped without work.
+pub fn skip(site: Site) {
+    CTX.with(|c| {
+        let mut ctx = c.borrow_mut();
+        if let Some(ix) = ctx.current[site as usize] {
+            ctx.record.loops[ix].skips += 1;
+        }
+    });
+}
+
+/// Called by the harness's watchdog on every `should_stop`: attributes the
+/// poll to the loop that ticked most recently.
+pub fn note_poll() {
+    CTX.with(|c| {
+        let mut ctx = c.borrow_mut();
+        match ctx.last_tick {
+            Some(ix) => {
+                ctx.record.loops[ix].polls += 1;
+                let site = ctx.record.loops[ix].site;
+                ctx.record.site_polls[site] += 1;
+            }
+            None => ctx.record.polls_unattributed += 1,
+        }
+    });
+}
+
+/// The site of the loop that ticked most recently, if any.
+pub fn current_site() -> Option<usize> {
+    CTX.with(|c| {
+        let ctx = c.borrow();
+        ctx.last_tick.map(|ix| ctx.record.loops[ix].site)
+    })
+}
+
+// ---------------------------------------------------------------------------
+// Collections (N1)
+// ---------------------------------------------------------------------------
+
+/// A keyed, deterministic hasher: `DefaultHasher` (SipHash-1-3 with fixed
+/// keys) prefixed with the two simulator keys.
+#[derive(Clone, Debug)]
+pub struct SimBuildHasher {
+    k0: u64,
+    k1: u64,
+}
+
+impl Default for SimBuildHasher {
+    fn default() -> Self {
+        CTX.with(|c| {
+            let ctx = c.borrow();
+            SimBuildHasher {
+                k0: ctx.params.key0,
+                k1: ctx.params.key1,
+            }
+        })
+    }
+}
+
+impl BuildHasher for SimBuildHasher {
+    type Hasher = DefaultHasher;
+
+    fn build_hasher(&self) -> DefaultHasher {
+        let mut h = DefaultHasher::new();
+        h.write_u64(self.k0);
+        h.write_u64(self.k1);
+        h
+    }
+}
+
+pub mod collections {
+    //! Drop-in replacements for `std::collections::{HashMap, HashSet}` whose
+    //! iteration order is decided by the simulation scheduler.
+
+    use std::{
+        borrow::Borrow,
+        collections::{HashMap as StdMap, HashSet as StdSet},
+        fmt::{self, Debug},
+        hash::{BuildHasher, Hash},
+        ops::{Deref, DerefMut},
+        panic::Location,
+    };
+
+    use super::{schedule, SimBuildHasher};
+    use crate::data::combine::Combine;
+
+    // ----------------------------------------------------------------- map
+
+    pub struct HashMap<K, V> {
+        inner: StdMap<K, V, SimBuildHasher>,
+    }
+
+    impl<K, V> HashMap<K, V> {
+        #[must_use]
+        pub fn new() -> Self {
+            HashMap {
+                inner: StdMap::with_hasher(SimBuildHasher::default()),
+            }
+        }
+
+        #[must_use]
+        pub fn with_capacity(capacity: usize) -> Self {
+            HashMap {
+                inner: StdMap::with_capacity_and_hasher(capacity, SimBuildHasher::default()),
+            }
+        }
+
+        #[track_caller]
+        pub fn iter(&self) -> std::vec::IntoIter<(&K, &V)> {
+            let mut v: Vec<(&K, &V)> = self.inner.iter().collect();
+            schedule(Location::caller(), &mut v);
+            v.into_iter()
+        }
+
+        #[track_caller]
+        pub fn iter_mut(&mut self) -> std::vec::IntoIter<(&K, &mut V)> {
+            let mut v: Vec<(&K, &mut V)> = self.inner.iter_mut().collect();
+            schedule(Location::caller(), &mut v);
+            v.into_iter()
+        }
+
+        #[track_caller]
+        pub fn keys(&self) -> std::vec::IntoIter<&K> {
+            let mut v: Vec<&K> = self.inner.keys().collect();
+            schedule(Location::caller(), &mut v);
+            v.into_iter()
+        }
+
+        #[track_caller]
+        pub fn values(&self) -> std::vec::IntoIter<&V> {
+            let mut v: Vec<&V> = self.inner.values().collect();
+            schedule(Location::caller(), &mut v);
+            v.into_iter()
+        }
+
+        #[track_caller]
+        pub fn values_mut(&mut self) -> std::vec::IntoIter<&mut V> {
+            let mut v: Vec<&mut V> = self.inner.values_mut().collect();
+            schedule(Location::caller(), &mut v);
+            v.into_iter()
+        }
+
+        #[track_caller]
+        pub fn into_keys(self) -> std::vec::IntoIter<K> {
+            let mut v: Vec<K> = self.inner.into_keys().collect();
+            schedule(Location::caller(), &mut v);
+            v.into_iter()
+        }
+
+        #[track_caller]
+        pub fn into_values(self) -> std::vec::IntoIter<V> {
+            let mut v: Vec<V> = self.inner.into_values().collect();
+            schedule(Location::caller(), &mut v);
+            v.into_iter()
+        }
+
+        #[track_caller]
+        pub fn drain(&mut self) -> std::vec::IntoIter<(K, V)> {
+            let mut v: Vec<(K, V)> = self.inner.drain().collect();
+            schedule(Location::caller(), &mut v);
+            v.into_iter()
+        }
+    }
+
+    impl<K, V> Default for HashMap<K, V> {
+        fn default() -> Self {
+            Self::new()
+        }
+    }
+
+    impl<K, V> Deref for HashMap<K, V> {
+        type Target = StdMap<K, V, SimBuildHasher>;
+
+        fn deref(&self) -> &Self::Target {
+            &self.inner
+        }
+    }
+
+    impl<K, V> DerefMut for HashMap<K, V> {
+        fn deref_mut(&mut self) -> &mut Self::Target {
+            &mut self.inner
+        }
+    }
+
+    impl<K: Clone, V: Clone> Clone for HashMap<K, V> {
+        fn clone(&self) -> Self {
+            HashMap {
+                inner: self.inner.clone(),
+            }
+        }
+    }
+
+    impl<K: Debug, V: Debug> Debug for HashMap<K, V> {
+        fn fmt(&self, f: &mut fmt::Formatter<'_>) -> fmt::Result {
+            self.inner.fmt(f)
+        }
+    }
+
+    impl<K: Eq + Hash, V: PartialEq> PartialEq for HashMap<K, V> {
+        fn eq(&self, other: &Self) -> bool {
+            self.inner == other.inner
+        }
+    }
+
+    impl<K: Eq + Hash, V: Eq> Eq for HashMap<K, V> {}
+
+    impl<K: Eq + Hash, V> FromIterator<(K, V)> for HashMap<K, V> {
+        fn from_iter<I: IntoIterator<Item = (K, V)>>(iter: I) -> Self {
+            let mut m = HashMap::new();
+            m.inner.extend(iter);
+            m
+        }
+    }
+
+    impl<K: Eq + Hash, V> Extend<(K, V)> for HashMap<K, V> {
+        fn extend<I: IntoIterator<Item = (K, V)>>(&mut self, iter: I) {
+            self.inner.extend(iter);
+        }
+    }
+
+    impl<K: Eq + Hash, V, const N: usize> From<[(K, V); N]> for HashMap<K, V> {
+        fn from(arr: [(K, V); N]) -> Self {
+            arr.into_iter().collect()
+        }
+    }
+
+    impl<K, V> IntoIterator for HashMap<K, V> {
+        type IntoIter = std::vec::IntoIter<(K, V)>;
+        type Item = (K, V);
+
+        #[track_caller]
+        fn into_iter(self) -> Self::IntoIter {
+            let mut v: Vec<(K, V)> = self.inner.into_iter().collect();
+            schedule(Location::caller(), &mut v);
+            v.into_iter()
+        }
+    }
+
+    impl<'a, K, V> IntoIterator for &'a HashMap<K, V> {
+        type IntoIter = std::vec::IntoIter<(&'a K, &'a V)>;
+        type Item = (&'a K, &'a V);
+
+        #[track_caller]
+        fn into_iter(self) -> Self::IntoIter {
+            let mut v: Vec<(&'a K, &'a V)> = self.inner.iter().collect();
+            schedule(Location::caller(), &mut v);
+            v.into_iter()
+        }
+    }
+
+    impl<'a, K, V> IntoIterator for &'a mut HashMap<K, V> {
+        type IntoIter = std::vec::IntoIter<(&'a K, &'a mut V)>;
+        type Item = (&'a K, &'a mut V);
+
+        #[track_caller]
+        fn into_iter(self) -> Self::IntoIter {
+            let mut v: Vec<(&'a K, &'a mut V)> = self.inner.iter_mut().collect();
+            schedule(Location::caller(), &mut v);
+            v.into_iter()
+        }
+    }
+
+    // ----------------------------------------------------------------- set
+
+    pub struct HashSet<T> {
+        inner: StdSet<T, SimBuildHasher>,
+    }
+
+    impl<T> HashSet<T> {
+        #[must_use]
+        pub fn new() -> Self {
+            HashSet {
+                inner: StdSet::with_hasher(SimBuildHasher::default()),
+            }
+        }
+
+        #[must_use]
+        pub fn with_capacity(capacity: usize) -> Self {
+            HashSet {
+                inner: StdSet::with_capacity_and_hasher(capacity, SimBuildHasher::default()),
+            }
+        }
+
+        #[track_caller]
+        pub fn iter(&self) -> std::vec::IntoIter<&T> {
+            let mut v: Vec<&T> = self.inner.iter().collect();
+            schedule(Location::caller(), &mut v);
+            v.into_iter()
+        }
+
+        #[track_caller]
+        pub fn drain(&mut self) -> std::vec::IntoIter<T> {
+            let mut v: Vec<T> = self.inner.drain().collect();
+            schedule(Location::caller(), &mut v);
+            v.into_iter()
+        }
+    }
+
+    impl<T: Eq + Hash> HashSet<T> {
+        #[track_caller]
+        pub fn union<'a>(&'a self, other: &'a HashSet<T>) -> std::vec::IntoIter<&'a T> {
+            let mut v: Vec<&'a T> = self.inner.union(&other.inner).collect();
+            schedule(Location::caller(), &mut v);
+            v.into_iter()
+        }
+
+        #[track_caller]
+        pub fn intersection<'a>(&'a self, other: &'a HashSet<T>) -> std::vec::IntoIter<&'a T> {
+            let mut v: Vec<&'a T> = self.inner.intersection(&other.inner).collect();
+            schedule(Location::caller(), &mut v);
+            v.into_iter()
+        }
+
+        #[track_caller]
+        pub fn difference<'a>(&'a self, other: &'a HashSet<T>) -> std::vec::IntoIter<&'a T> {
+            let mut v: Vec<&'a T> = self.inner.difference(&other.inner).collect();
+            schedule(Location::caller(), &mut v);
+            v.into_iter()
+        }
+
+        pub fn contains<Q>(&self, value: &Q) -> bool
+        where
+            T: Borrow<Q>,
+            Q: Hash + Eq + ?Sized,
+        {
+            self.inner.contains(value)
+        }
+    }
+
+    impl<T> Default for HashSet<T> {
+        fn default() -> Self {
+            Self::new()
+        }
+    }
+
+    impl<T> Deref for HashSet<T> {
+        type Target = StdSet<T, SimBuildHasher>;
+
+        fn deref(&self) -> &Self::Target {
+            &self.inner
+        }
+    }
+
+    impl<T> DerefMut for HashSet<T> {
+        fn deref_mut(&mut self) -> &mut Self::Target {
+            &mut self.inner
+        }
+    }
+
+    impl<T: Clone> Clone for HashSet<T> {
+        fn clone(&self) -> Self {
+            HashSet {
+                inner: self.inner.clone(),
+            }
+        }
+    }
+
+    impl<T: Debug> Debug for HashSet<T> {
+        fn fmt(&self, f: &mut fmt::Formatter<'_>) -> fmt::Result {
+            self.inner.fmt(f)
+        }
+    }
+
+    impl<T: Eq + Hash> PartialEq for HashSet<T> {
+        fn eq(&self, other: &Self) -> bool {
+            self.inner == other.inner
+        }
+    }
+
+    impl<T: Eq + Hash> Eq for HashSet<T> {}
+
+    impl<T: Eq + Hash, S: BuildHasher> PartialEq<StdSet<T, S>> for HashSet<T> {
+        fn eq(&self, other: &StdSet<T, S>) -> bool {
+            self.inner.len() == other.len() && self.inner.iter().all(|x| other.contains(x))
+        }
+    }
+
+    impl<T: Eq + Hash> FromIterator<T> for HashSet<T> {
+        fn from_iter<I: IntoIterator<Item = T>>(iter: I) -> Self {
+            let mut s = HashSet::new();
+            s.inner.extend(iter);
+            s
+        }
+    }
+
+    impl<T: Eq + Hash> Extend<T> for HashSet<T> {
+        fn extend<I: IntoIterator<Item = T>>(&mut self, iter: I) {
+            self.inner.extend(iter);
+        }
+    }
+
+    impl<T: Eq + Hash, const N: usize> From<[T; N]> for HashSet<T> {
+        fn from(arr: [T; N]) -> Self {
+            arr.into_iter().collect()
+        }
+    }
+
+    impl<T> IntoIterator for HashSet<T> {
+        type IntoIter = std::vec::IntoIter<T>;
+        type Item = T;
+
+        #[track_caller]
+        fn into_iter(self) -> Self::IntoIter {
+            let mut v: Vec<T> = self.inner.into_iter().collect();
+            schedule(Location::caller(), &mut v);
+            v.into_iter()
+        }
+    }
+
+    impl<'a, T> IntoIterator for &'a HashSet<T> {
+        type IntoIter = std::vec::IntoIter<&'a T>;
+        type Item = &'a T;
+
+        #[track_caller]
+        fn into_iter(self) -> Self::IntoIter {
+            let mut v: Vec<&'a T> = self.inner.iter().collect();
+            schedule(Location::caller(), &mut v);
+            v.into_iter()
+        }
+    }
+
+    impl<T: Clone + Eq + Hash> Combine for HashSet<T> {
+        #[track_caller]
+        fn combine(self, other: Self) -> Self {
+            // Same definition as the generic impl in `data::combine`, routed
+            // through the scheduled `union`.
+            self.union(&other).cloned().collect()
+        }
+
+        fn identity() -> Self {
+            HashSet::new()
+        }
+    }
+}
